@@ -104,6 +104,24 @@ impl HeapBuffer {
         Ok(HeapBuffer { ptr, len })
     }
 
+    /// Creates a buffer holding `text` with exactly `capacity` bytes of capacity.
+    ///
+    /// `capacity` must be greater than or equal to `text.len()`.
+    pub(super) fn with_exact_capacity(text: &str, capacity: usize) -> Result<Self, ReserveError> {
+        debug_assert!(text.len() <= capacity);
+
+        let mut buf = HeapBuffer::with_capacity(capacity)?;
+        // SAFETY:
+        // - `buf` was just allocated with at least `text.len()` bytes, so src and dst don't
+        //   overlap and dst is valid for `text.len()` bytes.
+        // - `buf` is unique, and `text` is valid UTF-8.
+        unsafe {
+            ptr::copy_nonoverlapping(text.as_ptr(), buf.ptr.as_ptr(), text.len());
+            buf.set_len(text.len());
+        }
+        Ok(buf)
+    }
+
     pub(super) fn capacity(&self) -> usize {
         self.header().capacity.as_usize()
     }
